@@ -23,7 +23,8 @@ func mk(id, rule string, p Profile, quick, thorough int, mon func(fw.Case, []str
 		RealOnly: func(line string) bool { return strings.HasPrefix(line, "v2.drain") },
 		// `att=N` (southbound attempts) is an observation of the real run for the monitors only
 		Match: func(line, realOut, twinOut string) bool { return attRe.ReplaceAllString(realOut, "") == twinOut },
-		Sigs:  map[string]func(fw.Case, []string, string) bool{"dirtyValueHistory": dirtySig},
+		Sigs: map[string]func(fw.Case, []string, string) bool{"dirtyValueHistory": dirtySig,
+			"textualPrefix": textualPrefixSig, "recreateUnderDeleted": recreateSig, "rollbackOfSubtreeDelete": rollbackSig},
 	}
 }
 
@@ -93,7 +94,28 @@ var C01 = mk("C01",
 		"Non-trivial = at least one write and a multi-target transaction or a rejecting verdict; distinct = distinct script.",
 	multi, 120, 4000, monitorC01)
 
+var vals = Profile{Targets: 2, Sets: 6, Faults: false, Verdicts: true, DevErrors: false, Injections: true,
+	Rollbacks: false, Serializable: false, Persistent: false, Deletes: true, MaxSteps: 200, Drain: true, StartConn: true, CleanPct: 50, Burst: true}
+
+// C03: histories of Sets, driven to the fixed point; the readable configuration must be the
+// gNMI-sequential effect of the committed requests.
+var C03 = mk("C03",
+	"histories of 1-6 Sets on 1-2 connected targets over an adversarial path universe (sibling names that are textual prefixes of each other, containers, list entries with one and two keys, deletes of leaves / containers / lists / list entries, re-creation under deleted ancestors), some rejected by the plugin, failed and lost store writes, random and burst scheduling; driven to the fixed point; "+
+		"monitor: an independent reference applies the committed requests in log order with gNMI semantics on element boundaries and compares with the live values configurations.Get returns. Non-trivial = at least one write; distinct = distinct script.",
+	vals, 150, 5000, monitorC03)
+
+var rb = Profile{Targets: 2, Sets: 6, Faults: false, Verdicts: false, DevErrors: false, Injections: true,
+	Rollbacks: true, RollbackBias: true, Serializable: false, Persistent: false, Deletes: true, MaxSteps: 200, Drain: true, StartConn: true, CleanPct: 50}
+
+// C06: histories of Sets and rollback requests for every index.
+var C06 = mk("C06",
+	"histories of 1-6 Sets and rollback requests (for the latest change, earlier changes, rollbacks, failed transactions and indices that do not exist; multi-target) on 1-2 connected targets, failed and lost store writes, random scheduling; driven to the fixed point; "+
+		"monitor: an independent reference decides which rollbacks are legal (the most recent change of every target of that change) - the others must end FAILED and merge nothing - and restores the displaced state for the legal ones; stored configuration and, once applied, the device are compared with it. Non-trivial = at least one write and one rollback; distinct = distinct script.",
+	rb, 150, 5000, monitorC06)
+
 func init() {
+	fw.Register(C03)
+	fw.Register(C06)
 	fw.Register(C01)
 	fw.Register(C02)
 	fw.Register(C04)
